@@ -636,8 +636,15 @@ def run(ctx):
         "integrator.py Integrator.run by the exact correspondence runs K1/K2",
         "tools/c12.py stand-ins: tagged states, FakeEvo (QobjEvo subclass), patched "
         "qutip.solver.result.expect, scripted Integrator subclass",
-        "MultiTrajResult / McResult / NmmcResult / StochasticResult are not modelled in Coq; "
-        "they are covered by the implementation-level oracle only",
+        "Model/C12_mc.v (McResult collapse records, numpy.histogram with explicit monotone "
+        "edges, runs_photocurrent / photocurrent) and Model/C12_sto.v (StochasticTrajResult dW / "
+        "wiener_process / measurement, StochasticResult._trajectories_attr) are hand-written; tied "
+        "by the exact correspondence runs K5/K6 (tools/c12_aux.py) with integer / dyadic payloads; "
+        "times and weights are integers in these models, divisions by num_trajectories and bin "
+        "widths are kept symbolic; ill-shaped stochastic records (SIllShaped) are outside the "
+        "model (numpy broadcasting not modelled)",
+        "MultiTrajResult sums/weights (C15), NmmcResult trace and merge are not modelled in "
+        "Coq; they are covered by the implementation-level oracle only",
     ]
 
     def search(failed, log):
@@ -658,6 +665,8 @@ def run(ctx):
     vlib.standard_proof_step(ctx, ["Props/C12.vo"], ["Props/C12.v"], search)
     replay_witness(ctx)
     correspondence(ctx, rng)
+    import c12_aux
+    c12_aux.run(ctx, rng)
     import c12_solvers
     c12_solvers.run_oracle(ctx, rng)
     ctx.cov["explanation"] = (
@@ -682,6 +691,9 @@ def replay(ctx, payload):
         if extra is not None:
             for sig, msg in class_oracle(case, obs, extra):
                 report_class_violation(ctx, case, sig, msg, obs)
+        return
+    import c12_aux
+    if c12_aux.replay(ctx, payload):
         return
     import c12_solvers
     c12_solvers.replay(ctx, payload)
